@@ -69,6 +69,8 @@ struct TEnd {
     std::function<bool()> do_shutdown_wr;
     uint64_t snap_total = 0; size_t snap_writable = 0; bool snap_ok = false;
     bool strict_close = false; uint64_t close_W = 0;
+    bool abort_check = false; uint64_t abort_L = 0; //! reset-type close: bytes that were in the library or readable in the descriptor right after it
+    std::function<void(size_t)> do_rxcfg;   //! re-register the receive callback with another threshold on the live connection
     bool peer_closed_wr = false;    //! the peer has (half-)closed: a close report is expected
     bool lenient = false;           //! a reset-type close happened: only prefix properties are judged
     bool saw_backlog = false, saw_represent = false;
@@ -504,6 +506,19 @@ void on_close(TEnd &t, const char *how) {
                      t.nm, (unsigned long long)t.presented_hi, (unsigned long long)W, (unsigned long long)t.consumed, t.threshold));
         if (t.presented_hi != W) vh::counter("close_tail_below_threshold");
     }
+    if (t.abort_check && !l.broken && t.close_reports == 1) {
+        uint64_t L = t.abort_L, tot = 0;
+        vh::counter("close_after_reset_checked");
+        bool have = buf_total(t, tot, true);
+        if (have && tot < L)
+            vh::viol("close/before-all-data-read", vh::fmt("%s: close (%s) reported with %llu bytes in the receive buffer; %llu were already there or readable "
+                     "in the descriptor when the peer went away", t.nm, how, (unsigned long long)tot, (unsigned long long)L));
+        uint64_t ref = have ? tot : L;
+        if (t.presented_hi < ref && !(ref - t.consumed < t.threshold))
+            vh::viol("close/before-data-presented", vh::fmt("%s: close (%s) reported after presenting %llu bytes; %llu had been received or were readable in the "
+                     "descriptor when the peer went away abortively (consumed %llu, threshold %zu)", t.nm, how, (unsigned long long)t.presented_hi,
+                     (unsigned long long)ref, (unsigned long long)t.consumed, t.threshold));
+    }
     if (t.bfd_r || t.bfd_w) bfd_close_action(t);
     if (t.teardown_at == 3 && !t.torn && t.do_teardown) { t.teardown_at = 0; g->log(vh::fmt("%s.teardown@close", t.nm)); vh::counter("teardown_in_close_cb"); perform_teardown(t, true); }
     --t.in_cb;
@@ -544,7 +559,25 @@ void r_close(Link &l, int kind) {
         vh::counter("peer_half_close");
         g->log("R.shutdown(WR)");
     } else {
-        bool clean = false;
+        bool clean = false, abortive = false;
+        size_t wrote_before = 0;
+        if (kind == 3 && l.tr == kPipe) kind = 1;
+        if (kind == 3) {
+            //! abortive ending with data written just before: the peer writes a block and goes away with unread inbound data
+            //! (unix: ECONNRESET after the data, TCP: RST) or with SO_LINGER {1,0}; no loop pass in between
+            if (l.tr != kTcp && inq(l.raw.rfd) == 0 && !t.torn && !t.close_reports) t_send(t, 5, "");   //! something the peer never reads
+            static const size_t bs[] = {1, 700, 3000, 70000};
+            size_t n = g->r->chance(1, 2) ? g->r->pick(bs) : pick_size(*g->r, false);
+            wrote_before = r_write(l, n);
+            g->log(vh::fmt("R.write(%zu)=%zu", n, wrote_before));
+            bool lingered = false;
+            if (l.tr == kTcp && (inq(l.raw.rfd) <= 0 || g->r->chance(1, 2))) {
+                struct linger lg; lg.l_onoff = 1; lg.l_linger = 0;
+                lingered = ::setsockopt(l.raw.wfd, SOL_SOCKET, SO_LINGER, &lg, sizeof lg) == 0;
+            }
+            abortive = lingered || inq(l.raw.rfd) > 0;
+        }
+        check_pair(l);
         if (kind == 1) {                                //! read everything first; clean when nothing is outstanding
             r_read(l, SIZE_MAX);
             clean = !t.lenient && l.raw.in->verified == l.raw.in->accepted && !l.raw.rerr;
@@ -564,7 +597,18 @@ void r_close(Link &l, int kind) {
         l.t_no_more_sends = true;
         t.sc_plan.clear(); t.rx_plan.clear();
         if (clean) { t.strict_close = true; t.close_W = l.r2t.accepted; vh::counter("peer_clean_close"); g->log("R.close()"); }
-        else { t.lenient = true; vh::counter("peer_reset_close"); g->log("R.close(dirty)"); }
+        else {
+            t.lenient = true; vh::counter("peer_reset_close"); g->log(kind == 3 ? "R.close(abortive)" : "R.close(dirty)");
+            //! whatever the library already holds plus whatever a plain recv() on the descriptor would still return (Linux hands out
+            //! queued data before the pending error) must be presented before the close is reported; later arrivals only add to it
+            uint64_t bt; long q;
+            if (l.tr != kPipe && !t.torn && !t.close_reports && t.fd_ok && t.can_recv && buf_total(t, bt) && (q = inq(t.rfd)) >= 0) {
+                t.abort_check = true; t.abort_L = bt + (uint64_t)q;
+                vh::counter("peer_reset_close_readable_measured");
+                if (q > 0) vh::counter("peer_reset_close_with_data_pending");
+                if (kind == 3 && abortive && wrote_before > 0 && q > 0) vh::counter("peer_abortive_close_with_data_pending");
+            }
+        }
     }
     g->sig.add(0x77); g->sig.add(kind);
 }
@@ -749,7 +793,8 @@ void plan_close(Link &l, vh::Rng &r) {
     }
     if (k < 30) r_close(l, 0);
     else if (k < 50) r_close(l, 1);
-    else if (k < 62) r_close(l, 2);
+    else if (k < 56) r_close(l, 2);
+    else if (k < 67) r_close(l, 3);
     else if (k < 80) t_teardown(t, 0);
     else if (k < 88) t_teardown(t, 1);
     else if (k < 95) t_teardown(t, 2);
@@ -1022,8 +1067,15 @@ void bind_server_end(TEnd &t, const TcpServer::ConnToken &tk) {
     t.do_shutdown_wr = [srv, tk] { return srv->shutdown(tk, SHUT_WR); };
 }
 
+void client_rx_cb(Buffer &b) {
+    Link *l = tw->client_link;
+    if (!l) { vh::viol("callback/unknown-connection", "TcpClient receive callback without a connection"); b.hasReadAll(); return; }
+    on_rx(tw->arrangement == 3 ? l->t2 : l->t, b);
+}
+
 void bind_client_end(TEnd &t) {
     TcpClient *c = tw->client;
+    t.do_rxcfg = [c](size_t thr) { c->setReceiveCallback(client_rx_cb, thr); tw->threshold = thr; };    //! also the value for later connections
     t.do_send = [c](const void *p, size_t n) { return c->send(p, n); };
     t.rbuf = [c]() -> Buffer * { return c->getReceiveBuffer(); };
     TEnd *tp = &t;
@@ -1044,6 +1096,7 @@ void bind_conn_end(TEnd &t, TcpConnection *conn) {
     };
     t.do_shutdown_wr = [conn] { return conn->shutdown(SHUT_WR); };
     conn->setReceiveCallback([tp](Buffer &b) { on_rx(*tp, b); }, t.threshold);
+    t.do_rxcfg = [conn, tp](size_t thr) { if (!tp->torn) conn->setReceiveCallback([tp](Buffer &b) { on_rx(*tp, b); }, thr); };
     conn->setSendCompleteCallback([tp] { on_sc(*tp); });
     conn->setDisconnectedCallback([conn, tp] {
         on_close(*tp, "disconnected");
@@ -1145,6 +1198,54 @@ void client_on_connected() {
     if (verify_sock_fd(fd, tw->unix_family)) { t.rfd = t.wfd = fd; t.fd_ok = true; if (!tw->unix_family) tcp_tune(fd, false); } else vh::counter("fd_not_identified");
     g->log(vh::fmt("[C.connected#%d]", tw->client_generations));
     if (tw->client_generations > 1) vh::counter("tcp_client_reconnected");
+}
+
+//! Length-prefixed framing as users do it: the receive callback is registered again on the live connection with another threshold
+//! (header size, then body size, ...), then the peer writes. Data that arrives afterwards and reaches the CURRENT threshold must be
+//! presented without waiting for more. Only done when nothing is buffered unpresented (a lower threshold alone re-presents nothing).
+void rethreshold_step(Link &l, vh::Rng &r) {
+    TEnd &t = l.t;
+    if (!l.has_raw || l.raw.rfd < 0 || l.raw.closed || l.raw.wr_shut || l.close_done || !t.do_rxcfg || t.torn || t.close_reports || t.in_cb) return;
+    uint64_t bt;
+    if (!buf_total(t, bt) || bt != t.presented_hi) return;
+    static const size_t ths[] = {0, 1, 4, 7, 8, 16, 64, 100, 1024, 4096};
+    size_t old = t.threshold, nw = r.pick(ths);
+    if (nw == old) nw = old >= 8 ? old / 2 : old + 9;
+    bool client = tw->client != nullptr;
+    t.do_rxcfg(nw);
+    t.threshold = nw;
+    bool lowered = nw < old;
+    vh::counter(std::string(client ? "tcpclient" : "tcpconnection") + (lowered ? "_threshold_lowered_while_connected" : "_threshold_raised_while_connected"));
+    g->log(vh::fmt("%s.rxcfg(thr %zu->%zu)", t.nm, old, nw));
+    g->sig.add(0x74); g->sig.add(nw);
+    if (!r.chance(3, 4)) return;
+    uint64_t unconsumed = bt - t.consumed;
+    uint64_t lo = nw > unconsumed ? nw - unconsumed : 1;
+    if (lo == 0) lo = 1;
+    uint64_t hi = (lowered && old > unconsumed + lo) ? old - unconsumed - 1 : lo + 300;    //! reaches the new threshold, not the old one
+    if (hi > lo + 5000) hi = lo + 5000;
+    size_t d = (size_t)r.range((int64_t)lo, (int64_t)hi);
+    size_t wr = r_write(l, d);
+    g->log(vh::fmt("R.write(%zu)=%zu", d, wr));
+    g->sig.add(d);
+    if (wr == 0) return;
+    bool arrived = false;
+    for (int i = 0; i < 300 && !arrived; ++i) {
+        g->pump();
+        uint64_t now;
+        if (t.torn || t.close_reports || l.broken || !buf_total(t, now)) return;
+        arrived = now == l.r2t.accepted;
+        if (!arrived && i >= 3) { struct timespec ts = {0, 500000}; nanosleep(&ts, nullptr); }
+    }
+    if (!arrived) { vh::counter("rethreshold_data_not_arrived_in_time"); return; }
+    vh::counter("rethreshold_presentation_checked");
+    if (lowered && l.r2t.accepted - t.consumed >= nw && l.r2t.accepted - t.consumed < old) vh::counter("rethreshold_between_new_and_old_threshold");
+    if (t.presented_hi != l.r2t.accepted && !(l.r2t.accepted - t.consumed < t.threshold)) {
+        vh::viol("recv/not-presented", vh::fmt("%s: threshold re-registered %zu -> %zu on the live connection, then %zu bytes arrived: %llu received, %llu consumed, "
+                 "only %llu presented although at least the current threshold is readable", t.nm, old, nw, wr, (unsigned long long)l.r2t.accepted,
+                 (unsigned long long)t.consumed, (unsigned long long)t.presented_hi));
+        l.broken = true;
+    }
 }
 
 void run_tcp_case(vh::Rng &r) {
@@ -1271,11 +1372,7 @@ void run_tcp_case(vh::Rng &r) {
                 if (tw->arrangement != 3) tw->client_link = nullptr;
                 if (tw->auto_reconnect) tw->client_fd_candidate = g->in_pass ? g->prepass_free_fd : -1;
             });
-            T.client->setReceiveCallback([](Buffer &b) {
-                Link *l = tw->client_link;
-                if (!l) { vh::viol("callback/unknown-connection", "TcpClient receive callback without a connection"); b.hasReadAll(); return; }
-                on_rx(tw->arrangement == 3 ? l->t2 : l->t, b);
-            }, T.threshold);
+            T.client->setReceiveCallback(client_rx_cb, T.threshold);
             T.client->setSendCompleteCallback([] {
                 Link *l = tw->client_link;
                 if (!l) { vh::counter("send_complete_after_teardown_or_close"); return; }
@@ -1337,6 +1434,8 @@ void run_tcp_case(vh::Rng &r) {
             unsigned k = (unsigned)r.below(100);
             if (k < 3 && T.arrangement == 0 && (int)w.links.size() < 4) {
                 connect_raw_client(); w.log("R.connect");
+            } else if (l.t.do_rxcfg && !l.has_t2 && r.chance(T.arrangement == 1 ? 14 : 7, 100)) {
+                rethreshold_step(l, r);
             } else if (k < 5 && !l.has_t2 && l.t.do_shutdown_wr && !l.t.torn && !l.t.close_reports && !l.t.wr_shut && !l.close_done) {
                 //! tbox half-close, only when the model knows everything queued has been flushed
                 uint64_t kw;
